@@ -115,6 +115,8 @@ def unary_ops():
         "lindblad": lambda a: qutip.lindblad_dissipator(a),
         "tensor_self": lambda a: qutip.tensor(a, a),
         "tensor_id": lambda a: qutip.tensor(a, qutip.qeye(2)),
+        "expand_op": lambda a: qutip.expand_operator(a, [2, 3, 2], [2]),
+        "expand_op0": lambda a: qutip.expand_operator(a, [2, 2], [0]),
         "transform_had": lambda a: a.transform(_had()),
         "transform_inv": lambda a: a.transform(_had(), inverse=True),
         "tidyup": lambda a: a.copy().tidyup(),
